@@ -112,6 +112,10 @@ def build(desc):
             co = CountingObjective(desc["obj"], box, mx, i)
             objs.append(co)
             p = FunctionProblem(co, bounds=box.copy(), maximize=mx)
+        if desc.get("stats_wrapper"):
+            from pyhms.core.problem import StatsGatheringProblem
+
+            p = StatsGatheringProblem(p)
         lsc = make_lsc(desc["lsc"][i] if desc.get("lsc") else None)
         levels.append(make_level(e, p, lsc, desc.get("gens", 1), box, desc))
     g = desc.get("gsc", {"kind": "metaepoch", "n": desc["Mh"]})
@@ -197,6 +201,12 @@ def run_world(res, desc, tmpdir):
     k = 0
     gsc_seen = False
     while True:
+        every = desc.get("snapshot_every", 1)
+        if every > 1 and k % every and not tree.config.gsc(tree) and k <= Mh:
+            # (large worlds: a snapshot costs seconds; only every n-th boundary and the final one are snapshot points)
+            tree.run_step()
+            k += 1
+            continue
         rep = {"check": ID, "unit": {"kind": "world"}, "desc": desc, "dev": [], "snapshot_at": k}
         # one snapshot file per world, overwritten at every boundary (as a user who checkpoints into the default file name does)
         path = os.path.join(tmpdir, f"snap_{os.getpid()}.pkl")
@@ -266,7 +276,7 @@ def run_world(res, desc, tmpdir):
                                       f"performs a different next metaepoch than the live tree (state lost or detached by the snapshot)", {}, rep)
                 else:
                     res.flags["restored and live tree made the same next metaepoch"] += 1
-            while not loaded.config.gsc(loaded) and steps <= Mh + 2:
+            while not loaded.config.gsc(loaded) and steps <= min(Mh + 2, desc.get("max_continue", 999)):
                 loaded.run_step()
                 steps += 1
                 where = f"loaded@{k}+{steps}"
@@ -374,6 +384,14 @@ def worlds(tier, seed):
     for j, eng in enumerate([("SEA", "DE", "SEA"), ("DE", "SEA", "SHADE"), ("LHS", "GA", "DEd")]):
         out.append(dict(engines=list(eng), gens=1, Mh=8, seed=s + j, hib=False, lambda_obj=bool(j % 2), obj="twofunnel", maximize=bool(j % 2),
                         sprout={"kind": "simple", "L": 3, "far": 0.02}, lsc=[None, None, {"kind": "metaepoch", "m": 1}]))
+    # beyond the small scope: more than 64 metaepochs in a history (every boundary is a snapshot point, the restored tree is continued for
+    # two steps only), and a timing wrapper that has seen more than 5000 evaluations
+    for j, eng in enumerate([("SEA",), ("DE", "SEA"), ("LHS", "CMAf")] if tier == "thorough" else [("SEA",), ("DE", "SEA")]):
+        out.append(dict(engines=list(eng), gens=1, Mh=67 if j < 2 else 130, seed=s + j, hib=bool(j % 2), lambda_obj=bool(j % 2), obj="twofunnel", maximize=bool(j % 2), max_continue=2,
+                        sprout={"kind": "simple", "L": 1}, lsc=[None] + [{"kind": "metaepoch", "m": 3}] * (len(eng) - 1)))
+    for j, eng in enumerate([("SEA", "DE"), ("DE",)] if tier == "thorough" else [("DE",)]):
+        out.append(dict(engines=list(eng), gens=2, Mh=28, pop=100, seed=s + j, hib=False, lambda_obj=bool(j % 2), obj="sphere_in", maximize=bool(j % 2), max_continue=2, stats_wrapper=True, snapshot_every=9,
+                        sprout={"kind": "simple", "L": 1}, lsc=[None] * len(eng)))
     # objective undefined (NaN) on half of the box: comparisons among NaN individuals draw from Python's `random`
     for j, eng in enumerate([("SEA", "DE"), ("DE", "SHADE"), ("LHS", "SEAX"), ("GA",), ("SHADE", "SOB")]):
         for hib in (False, True):
